@@ -130,7 +130,13 @@ enum GridSel {
 enum Step {
     Call { name: String, arg: Arg, inv: bool },
     Fixed { i: u8, inv: bool },
-    Grid { g: GridSel, inv: bool },
+    /// `gridshift grids=<file>` or, optional, `gridshift grids=@<file>`
+    Grid {
+        g: GridSel,
+        inv: bool,
+        #[serde(default)]
+        optional: bool,
+    },
 }
 
 #[derive(Clone, Debug, Serialize, Deserialize, PartialEq, Eq, Hash)]
@@ -186,7 +192,7 @@ fn step_parts(s: &Step) -> (String, String) {
             let (h, r) = t.split_once(' ').unwrap_or((t, ""));
             (h.to_string(), if r.is_empty() { String::new() } else { format!(" {r}") }, *inv)
         }
-        Step::Grid { g, inv } => ("gridshift".to_string(), format!(" grids={}", grid_file(g)), *inv),
+        Step::Grid { g, inv, optional } => ("gridshift".to_string(), format!(" grids={}{}", if *optional { "@" } else { "" }, grid_file(g)), *inv),
     };
     if inv {
         tail.push_str(" inv");
@@ -468,7 +474,7 @@ fn setup_world() {
     let d_mid = one(call("helmert", Arg::DollarDef(7), false));
     let d_nest = pipe(vec![call("reg:a", Arg::None, false), call("solo:one", Arg::Lit(3), true)]);
     let d_useop = pipe(vec![call("myop", Arg::Lit(5), false), call("addone", Arg::None, false)]);
-    let d_grid = pipe(vec![Step::Grid { g: GridSel::Cat("test.datum".into()), inv: false }, call("addone", Arg::None, false)]);
+    let d_grid = pipe(vec![Step::Grid { g: GridSel::Cat("test.datum".into()), inv: false, optional: false }, call("addone", Arg::None, false)]);
     let d_inv = one(call("helmert", Arg::Lit(104), true));
     let d_last = one(helm(105));
     std::fs::write(
@@ -561,7 +567,7 @@ fn setup_world() {
     std::fs::write(ur.join("usolo_w.resource"), format!("{}\n", render_def(&us, 0))).unwrap();
     add("usolo:w", vec![Some(us)], "user-path-stand-alone", true);
     // user path grid inside a user path macro
-    let ug = pipe(vec![Step::Grid { g: GridSel::Cat("uonly.geoid".into()), inv: false }, helm(651)]);
+    let ug = pipe(vec![Step::Grid { g: GridSel::Cat("uonly.geoid".into()), inv: false, optional: false }, helm(651)]);
     std::fs::write(ur.join("ugrid.md"), register_text("UGrid", &[("g", &ug, 1)], Eol::CrLf, Ending::TermNl)).unwrap();
     add("ugrid:g", vec![Some(ug)], "user-path-register-grid", true);
 
@@ -598,6 +604,7 @@ enum Prim {
     User { c: u8, d: i64 },
     Fixed(u8),
     Grid(String), // name in the reference context
+    NoGrid,       // gridshift whose only grid is an absent @optional one
 }
 
 #[derive(Clone, Debug, PartialEq)]
@@ -733,6 +740,8 @@ fn eval(node: &Node, fwd: bool, data: &mut Vec<Coor4D>, unspec: &mut bool) -> us
                 Prim::Noop => ref_apply("noop", f, data),
                 Prim::Fixed(i) => ref_apply(FIXED[*i as usize % FIXED.len()], f, data),
                 Prim::Grid(name) => fresh_grid_apply(name, f, data),
+                // whatever the library documents for "no grid serves the point" (pristine reference context)
+                Prim::NoGrid => ref_apply("gridshift grids=@c18-never-there.geoid", f, data),
                 Prim::User { c, d } => {
                     let j = *c as usize % 6;
                     if !f && !UC[j].2 {
@@ -779,6 +788,8 @@ struct Registry {
 struct PrivGrid {
     v: u8,
     removed: bool,
+    /// false: the name has been reserved (and possibly asked for) but no file of that name ever existed
+    written: bool,
 }
 
 enum Stop {
@@ -836,26 +847,44 @@ impl<'a> Resolver<'a> {
     fn step(&mut self, s: &Step, env: Option<i64>, path: &mut Vec<String>) -> Result<(Node, Vec<String>), Stop> {
         match s {
             Step::Fixed { i, inv } => Ok((Node::Leaf { prim: Prim::Fixed(*i), inverted: *inv }, vec![step_name(s)])),
-            Step::Grid { g, inv } => {
+            Step::Grid { g, inv, optional } => {
                 if !self.reg.plain {
+                    if *optional {
+                        return Err(Stop::Unspec("an @optional grid in a context without grid access".into()));
+                    }
                     return Err(Stop::Err("Minimal has no grid access".into()));
                 }
+                // an @optional grid that is not there is skipped: the operator is a gridshift without grids
+                let skipped = Ok((Node::Leaf { prim: Prim::NoGrid, inverted: *inv }, vec![step_name(s)]));
                 let file = grid_file(g);
                 let refname = match g {
                     GridSel::Cat(n) => {
                         if n == "nofile.geoid" || !world().grids.iter().any(|(g, _)| g == n) {
+                            if *optional {
+                                return skipped;
+                            }
                             return Err(Stop::Err(format!("grid file {n} does not exist")));
                         }
                         n.clone()
                     }
                     _ => match self.priv_files.get(&file) {
-                        None => return Err(Stop::Err(format!("grid file {file} was never written"))),
-                        Some(p) => {
+                        // documented lookup: the file is looked for at instantiation time. A name asked
+                        // for in vain earlier (in any context) is found as soon as its file exists.
+                        Some(p) if p.written => {
                             if p.removed && self.choose(2) == 1 {
                                 // removed and not in the cache (which any thread may clear at any time)
+                                if *optional {
+                                    return skipped;
+                                }
                                 return Err(Stop::Err(format!("grid file {file} removed")));
                             }
                             format!("pv{}.geoid", p.v % 8)
+                        }
+                        _ => {
+                            if *optional {
+                                return skipped;
+                            }
+                            return Err(Stop::Err(format!("grid file {file} does not exist (yet)")));
                         }
                     },
                 };
@@ -1179,7 +1208,15 @@ enum Cmd {
     /// instantiate a name that is currently registered (operator or macro) in that context
     OpReg { ctx: u8, sel: u16, arg: Arg, inv: bool, layout: u8, wrap: u8 },
     /// instantiate a grid operator on a history-private grid file (in a Plain context if there is one)
-    OpPriv { ctx: u8, slot: u8, inv: bool, wrap: u8 },
+    /// wrap: bit 0 = inside a pipeline, bit 1 = insist on the chosen slot even if its file does not exist yet
+    OpPriv {
+        ctx: u8,
+        slot: u8,
+        inv: bool,
+        wrap: u8,
+        #[serde(default)]
+        opt: bool,
+    },
     Apply { h: u16, fwd: bool, n: u8, seed: i16 },
     Foreign { h: u16, ctx: u8 },
     ClearGrids,
@@ -1247,6 +1284,7 @@ struct Hist {
     slots: [Option<String>; 2],
     priv_files: BTreeMap<String, PrivGrid>,
     created: Vec<PathBuf>,
+    asked_before_written: BTreeSet<String>,
     nt: BTreeSet<&'static str>,
     sig: String,
 }
@@ -1255,6 +1293,24 @@ impl Drop for Hist {
     fn drop(&mut self) {
         for p in &self.created {
             let _ = std::fs::remove_file(p);
+        }
+    }
+}
+
+impl Hist {
+    /// Give every history-private slot the definition mentions a file name (unique in the process),
+    /// whether or not a file of that name exists yet: an operator may ask for a grid before its
+    /// file appears; the same NAME is then used when the file is written.
+    fn reserve_slots(&mut self, def: &Def) {
+        for s in &def.steps {
+            if let Step::Grid { g: GridSel::Priv(k), .. } = s {
+                let k = *k as usize % 2;
+                if self.slots[k].is_none() {
+                    let name = format!("c18p{}.geoid", PRIV_COUNTER.fetch_add(1, Ordering::Relaxed));
+                    self.priv_files.insert(name.clone(), PrivGrid { v: 0, removed: false, written: false });
+                    self.slots[k] = Some(name);
+                }
+            }
         }
     }
 }
@@ -1319,6 +1375,7 @@ impl Hist {
             slots: [None, None],
             priv_files: BTreeMap::new(),
             created: vec![],
+            asked_before_written: BTreeSet::new(),
             nt: BTreeSet::new(),
             sig: String::new(),
         }
@@ -1433,6 +1490,25 @@ impl Hist {
     }
 
     fn do_op(&mut self, ci: usize, def: &Def, layout: u8, rec: &mut Rec, at: usize) -> CaseResult {
+        self.reserve_slots(def);
+        let asked_in_vain = def.steps.iter().any(|s| matches!(s, Step::Grid { g: GridSel::Priv(k), .. } if self.slots[*k as usize % 2].as_ref().map(|n| !self.priv_files[n].written).unwrap_or(false)));
+        if asked_in_vain {
+            rec.class("grid-asked-for-before-its-file-exists");
+        }
+        let found_after = def.steps.iter().any(|s| matches!(s, Step::Grid { g: GridSel::Priv(k), .. } if self.slots[*k as usize % 2].as_ref().map(|n| self.asked_before_written.contains(n) && self.priv_files[n].written && !self.priv_files[n].removed).unwrap_or(false)));
+        if found_after {
+            rec.class("grid-instantiated-after-its-file-appeared");
+            self.nt.insert("grid-file-appeared-after-a-vain-lookup");
+        }
+        if asked_in_vain {
+            for s in &def.steps {
+                if let Step::Grid { g: GridSel::Priv(k), .. } = s {
+                    if let Some(n) = &self.slots[*k as usize % 2] {
+                        self.asked_before_written.insert(n.clone());
+                    }
+                }
+            }
+        }
         let p = self.prepare_op(ci, def, layout, rec);
         let r = {
             let any = &mut self.ctxs[ci].any;
@@ -1568,6 +1644,7 @@ impl Hist {
     }
 
     fn reg_res(&mut self, ci: usize, name: &str, body: &Def, layout: u8) {
+        self.reserve_slots(body);
         self.note_registration(ci, name);
         let body = concretize(body, &self.slots);
         // trimmed: `inv` on a nested macro invocation is detected by `ends_with(" inv")` on the raw
@@ -1689,18 +1766,19 @@ fn run_history(hist: &History, rec: &mut Rec) -> CaseResult {
                 w.do_op(ci, &def, *layout, rec, at)?;
                 "op"
             }
-            Cmd::OpPriv { ctx, slot, inv, wrap } => {
+            Cmd::OpPriv { ctx, slot, inv, wrap, opt } => {
                 let mut ci = *ctx as usize % 3;
                 if !w.ctxs[ci].reg.plain {
                     if let Some(k) = (0..3).find(|k| w.ctxs[*k].reg.plain) {
                         ci = k;
                     }
                 }
+                let has_file = |k: usize| w.slots[k].as_ref().map(|n| w.priv_files[n].written).unwrap_or(false);
                 let mut slot = *slot as usize % 2;
-                if w.slots[slot].is_none() && w.slots[1 - slot].is_some() {
+                if wrap & 2 == 0 && !has_file(slot) && has_file(1 - slot) {
                     slot = 1 - slot;
                 }
-                let g = Step::Grid { g: GridSel::Priv(slot as u8), inv: *inv };
+                let g = Step::Grid { g: GridSel::Priv(slot as u8), inv: *inv, optional: *opt };
                 let def = if wrap % 2 == 0 { one(g) } else { pipe(vec![g, call("addone", Arg::None, false)]) };
                 let _ = write!(w.sig, "I{ci}{};", render_def(&def, 0));
                 w.do_op(ci, &def, 0, rec, at)?;
@@ -1752,18 +1830,23 @@ fn run_history(hist: &History, rec: &mut Rec) -> CaseResult {
             }
             Cmd::WriteGrid { slot, v } => {
                 let k = *slot as usize % 2;
-                let name = format!("c18p{}.geoid", PRIV_COUNTER.fetch_add(1, Ordering::Relaxed));
+                // a name that was reserved (maybe asked for in vain) but never had a file gets its file
+                // now; otherwise a fresh name: the content behind a name never changes
+                let name = match &w.slots[k] {
+                    Some(n) if !w.priv_files[n].written => n.clone(),
+                    _ => format!("c18p{}.geoid", PRIV_COUNTER.fetch_add(1, Ordering::Relaxed)),
+                };
                 let path = world().root.join("w").join("geodesy").join("geoid").join(&name);
                 std::fs::write(&path, priv_grid_text(*v % 8)).expect("write private grid");
                 w.created.push(path);
-                w.priv_files.insert(name.clone(), PrivGrid { v: *v % 8, removed: false });
+                w.priv_files.insert(name.clone(), PrivGrid { v: *v % 8, removed: false, written: true });
                 w.slots[k] = Some(name);
                 let _ = write!(w.sig, "W{k}{};", v % 8);
                 "write-grid-file"
             }
             Cmd::RemoveGrid { slot } => {
                 let k = *slot as usize % 2;
-                if let Some(name) = &w.slots[k] {
+                if let Some(name) = w.slots[k].as_ref().filter(|n| w.priv_files[*n].written) {
                     let path = world().root.join("w").join("geodesy").join("geoid").join(name);
                     let _ = std::fs::remove_file(path);
                     if w.live.iter().any(|l| l.text.contains(name.as_str())) {
@@ -2235,7 +2318,7 @@ fn arb_step(grid_w: u32) -> impl Strategy<Value = Step> {
             Step::Call { name, arg, inv }
         }),
         2 => (0u8..FIXED.len() as u8, prop::bool::weighted(0.25)).prop_map(|(i, inv)| Step::Fixed { i, inv }),
-        grid_w => (arb_gridsel(), prop::bool::weighted(0.25)).prop_map(|(g, inv)| Step::Grid { g, inv }),
+        grid_w => (arb_gridsel(), prop::bool::weighted(0.25), prop::bool::weighted(0.25)).prop_map(|(g, inv, optional)| Step::Grid { g, inv, optional }),
     ]
 }
 
@@ -2265,7 +2348,7 @@ fn arb_cmd(p: Profile) -> impl Strategy<Value = Cmd> {
         p.w[9] => (0u8..2).prop_map(|slot| Cmd::RemoveGrid { slot }),
         p.w[10] => (0u8..6, 0u8..8, any::<u16>(), prop::bool::weighted(0.7)).prop_map(|(threads, rounds, seed, side)| Cmd::Burst { threads, rounds, seed, side }),
         p.w[11] => (0u8..3, any::<u16>(), arb_arg(), prop::bool::weighted(0.25), 0u8..4, 0u8..4).prop_map(|(ctx, sel, arg, inv, layout, wrap)| Cmd::OpReg { ctx, sel, arg, inv, layout, wrap }),
-        p.w[12] => (0u8..3, 0u8..2, prop::bool::weighted(0.25), 0u8..2).prop_map(|(ctx, slot, inv, wrap)| Cmd::OpPriv { ctx, slot, inv, wrap }),
+        p.w[12] => (0u8..3, 0u8..2, prop::bool::weighted(0.25), 0u8..4, prop::bool::weighted(0.3)).prop_map(|(ctx, slot, inv, wrap, opt)| Cmd::OpPriv { ctx, slot, inv, wrap, opt }),
     ]
 }
 
@@ -2300,11 +2383,36 @@ fn file_item_cases() -> Vec<History> {
             ],
         });
     }
+    // a grid is asked for before its file exists (mandatory: error; @optional: skipped), then the file
+    // appears under that very name: every later instantiation - same context, other context, new
+    // context, with or without a cache clear in between - must find it
+    for variant in 0..4u8 {
+        let (first_opt, pipe_form) = (variant % 2 == 1, variant / 2 == 1);
+        let wrap = 2 + pipe_form as u8;
+        v.push(History {
+            cmds: vec![
+                Cmd::OpPriv { ctx: 1, slot: 0, inv: false, wrap, opt: first_opt },
+                Cmd::OpPriv { ctx: 2, slot: 0, inv: false, wrap: 2, opt: !first_opt },
+                Cmd::WriteGrid { slot: 0, v: 3 + variant },
+                Cmd::OpPriv { ctx: 1, slot: 0, inv: false, wrap, opt: false },
+                Cmd::OpPriv { ctx: 2, slot: 0, inv: true, wrap: 2, opt: true },
+                Cmd::ClearGrids,
+                Cmd::OpPriv { ctx: 1, slot: 0, inv: false, wrap: 2, opt: true },
+                Cmd::NewCtx { slot: 0, plain: true, with_new: true },
+                Cmd::OpPriv { ctx: 0, slot: 0, inv: false, wrap, opt: false },
+                Cmd::Apply { h: 65000, fwd: true, n: 9, seed: 2 },
+                Cmd::Burst { threads: 2, rounds: 2, seed: 6, side: true },
+                Cmd::RemoveGrid { slot: 0 },
+                Cmd::ClearGrids,
+                Cmd::OpPriv { ctx: 2, slot: 0, inv: false, wrap: 2, opt: true },
+            ],
+        });
+    }
     // nested NTv2 files: handles on the same file in two Plain contexts, plain / inverted / inside a
     // pipeline, applies of generated data, bursts, cache clears, a new context, all interleaved by the
     // re-fingerprinting after every step
     for file in ["5458_with_subgrid.gsb", "c18nest.gsb"] {
-        let g = |inv: bool| Step::Grid { g: GridSel::Cat(file.to_string()), inv };
+        let g = |inv: bool| Step::Grid { g: GridSel::Cat(file.to_string()), inv, optional: false };
         for variant in 0..3u8 {
             let second = match variant {
                 0 => one(g(false)),
@@ -2548,7 +2656,8 @@ fn main() {
     run.assume("a user operator registered under a name containing ':' is unspecified (documentation: names with ':' are macros); generated, must not panic, outcome not compared");
     run.assume("search order between ./geodesy and the user data directory, and between a stand-alone .resource file and a register item of the same name, is not documented: either candidate is accepted");
     run.assume("an instantiated grid operator owns its grid (doc comment of Plain::clear_grids): removing the file of a history-private grid and clearing the cache must not change it; instantiating it afterwards may succeed (cached) or fail");
-    run.assume("grid files are immutable per name: every written private grid gets a fresh file name");
+    run.assume("grid files are immutable per name: a written private grid gets a fresh file name, or the name an earlier instantiation asked for in vain (no file of that name ever existed before)");
+    run.assume("grid lookup happens at instantiation time (Plain::get_grid: cache of LOADED grids, then the data path): a name not found earlier is found once its file exists; an absent @optional grid is skipped, the operator then behaves as a gridshift without grids does in a pristine reference context");
     run.assume("'$' forwarding on macro invocations, prefix 'inv', omit_fwd/omit_inv are left to C03/C04 and not generated; caller arguments are visible to every step of a macro body (documented), step-local values win");
     run.assume("inverse application of a definition containing a non-invertible user operator is unspecified and only checked for stability");
     run.assume("thread schedules are sampled by the OS, not enumerated");
